@@ -1,0 +1,13 @@
+//go:build verif
+
+package chain
+
+// Test-only exports for the /verif harness (compiled only with -tags verif).
+// Listener and BlockHistoryTracker are otherwise stopped only by their
+// finalizers; a testing/synctest bubble needs their goroutines to end.
+
+// VerifStop stops the listener's goroutine and unsubscribes it from its block source.
+func (cl *Listener) VerifStop() { cl.stop() }
+
+// VerifStop stops the history tracker's goroutine.
+func (ht *BlockHistoryTracker) VerifStop() { ht.stop() }
